@@ -65,6 +65,28 @@ var requests = []reqT{
 	{get: []pair{{"b", "y"}, {"a", "X1"}, {"A", "x2"}}, hdr: []pair{{"X-H", "x9"}}},
 	{get: []pair{{"a", "y"}, {"b", "x1"}, {"b", "x1"}, {"c", "xx"}}, hdr: []pair{{"X-H", "x1"}, {"X-H", "X2"}}},
 	{get: []pair{{"a", "xa"}, {"a", "xb"}, {"a", "xc"}}, hdr: []pair{{"X-H", "y"}}},
+	wide(40, false),
+	wide(33, true),
+}
+
+// wide: many matching values (counters must add up however many there are), under distinct names or under one name.
+func wide(n int, oneName bool) reqT {
+	var r reqT
+	for i := 0; i < n; i++ {
+		name := fmt.Sprintf("k%02d", i)
+		if oneName {
+			name = "a"
+		}
+		v := fmt.Sprintf("x%d", i)
+		if i%7 == 6 {
+			v = "y" // no match
+		}
+		r.get = append(r.get, pair{name, v})
+	}
+	for i := 0; i < 12; i++ {
+		r.hdr = append(r.hdr, pair{"X-H", fmt.Sprintf("x%d", i)})
+	}
+	return r
 }
 
 func (r reqT) scen() scen.Req {
@@ -391,11 +413,16 @@ func renderModel(rules []ruleT, r reqT) string {
 		sb.WriteString(f + "\n")
 	}
 	sb.WriteString("TX:")
+	var kv []string
 	for _, k := range keys {
 		if len(k) == 1 && k[0] >= '0' && k[0] <= '9' {
 			continue
 		}
-		fmt.Fprintf(&sb, " %s=%s", k, tx[k])
+		kv = append(kv, k+"="+tx[k])
+	}
+	sort.Strings(kv) // the engine side sorts the rendered entries, not the keys ("x10=1" < "x1=1")
+	for _, e := range kv {
+		sb.WriteString(" " + e)
 	}
 	fmt.Fprintf(&sb, "\nHIGHEST_SEVERITY=%d interrupted_by=%d\n", sev, itr)
 	return sb.String()
